@@ -291,6 +291,9 @@ SENTINELS = [
     [_t("a\n  "), _tag("block", "set z = 1"), _t("\nb\n")],
     [_t("a\n\t"), _tag("comment", "c"), _t("\n"), _tag("variable", "'V1'"), _t("\n  "), _tag("block", "set z = 1"), _t("\n")],
     [_t("\n "), [Atom("raw"), Atom("n"), False, "\n r\n ", Atom("n"), Atom("n")], _t("\n\nfoo\n")],
+    # the same with CRLF and lone-CR line breaks
+    [_t("a\r\n  "), _tag("block", "set z = 1"), _t("\r\nb\r\n")],
+    [_t("a\r\t"), _tag("comment", "c"), _t("\r"), _tag("variable", "'V1'"), _t("\r  "), _tag("block", "set z = 1"), _t("\r")],
 ]
 
 
@@ -300,7 +303,7 @@ def skeleton_probes(rng, n_random):
     for _ in range(n_random):
         segs = [gen_seg(rng) for _ in range(rng.randrange(1, 6))]
         if rng.random() < 0.6:
-            segs.append(_t(rng.choice(["\n", "a\n", "\n\n", " \n"])))
+            segs.append(_t(rng.choice(["\n", "a\n", "\n\n", " \n", "\r\n", "\r", "a\r\n", "\n\r"])))
         ps.append(segs)
     return ps
 
@@ -311,6 +314,7 @@ LINE_TAGS = ["set z = 1", "if true", "endif", "for i in [1]", "endfor"]
 def line_probe(rng, o, allow_comment=True):
     """whole lines of text / tags / comments, none blank, well nested; as (line form, block form, has_comment)"""
     lines = []
+    nl = rng.choice(["\n", "\n", "\r\n", "\r", None])  # one line break for the whole source, or (None) mixed
     for _ in range(rng.randrange(1, 7)):
         k = rng.choice(["text", "text", "tag", "tag", "comment"] if allow_comment else ["text", "tag", "tag"])
         ind = rng.choice(["", "  ", "\t"])
@@ -338,15 +342,17 @@ def line_probe(rng, o, allow_comment=True):
     sp, cp = o["line_statement_prefix"], o["line_comment_prefix"]
     bs, be, cs, ce = o["block_start_string"], o["block_end_string"], o["comment_start_string"], o["comment_end_string"]
 
+    ends = [nl if nl is not None else rng.choice(["\n", "\r\n", "\r"]) for _ in fixed]
+
     def form(line_syntax, plus=""):
         out = []
-        for l in fixed:
+        for l, e in zip(fixed, ends):
             if l[0] == "text":
-                out.append(l[1] + "\n")
+                out.append(l[1] + e)
             elif l[0] == "tag":
-                out.append(l[1] + (sp + " " + l[2] if line_syntax and sp is not None else bs + " " + l[2] + " " + be) + "\n")
+                out.append(l[1] + (sp + " " + l[2] if line_syntax and sp is not None else bs + " " + l[2] + " " + be) + e)
             else:
-                out.append(l[1] + (cp + " " + l[2] if line_syntax and cp is not None else cs + " " + l[2] + " " + plus + ce) + "\n")
+                out.append(l[1] + (cp + " " + l[2] if line_syntax and cp is not None else cs + " " + l[2] + " " + plus + ce) + e)
         return "".join(out)
 
     # where only one of the two prefixes is configured, the other kind of line stays in its tag form
@@ -389,6 +395,61 @@ def attach_probes(rng, scenarios, n_random, n_line):
             for p in ev["lines"]:
                 p["model_tokens"] = next(lex_models)["res"]
     return {"model_requests": len(reqs) + len(lex_reqs), "model_declined": declined}
+
+
+PLAIN_BITS = ["a", "é", " ", "\t", "\n", "\n", "\r\n", "\r", "\x0b", "\x0c", "\x85", "\u2028", "b c", "-", "x"]
+
+
+def plain_source(rng, o):
+    """text, comments and raw blocks only (C11's subject), with all three line breaks, in the delimiters of ``o``"""
+    bs, be, cs, ce = o["block_start_string"], o["block_end_string"], o["comment_start_string"], o["comment_end_string"]
+    parts = []
+    for _ in range(rng.randrange(1, 5)):
+        k = rng.choice(["text", "text", "text", "comment", "raw"])
+        body = "".join(rng.choice(PLAIN_BITS) for _ in range(rng.randrange(0, 6)))
+        if k == "text":
+            parts.append(body)
+        elif k == "comment":
+            parts.append(cs + rng.choice(["", "-", "+"]) + " " + body + " " + rng.choice(["", "-", "+"]) + ce)
+        else:
+            parts.append(bs + rng.choice(["", "-", "+"]) + " raw " + rng.choice(["", "-"]) + be + body
+                         + bs + rng.choice(["", "-", "+"]) + " endraw " + rng.choice(["", "-", "+"]) + be)
+    return "".join(parts) + rng.choice(["", "\n", "\r\n", "\r", "\n\n", "\r\n\r\n", "a"])
+
+
+PLAIN_SENTINELS = ["a\nb\n", "a\r\nb\r\n", "x\ry\r", "a\n\n"]
+
+
+def attach_plain_probes(rng, scenarios, n_random):
+    """probes for C11: plain sources; the Lean lexer model (lex-plain) says what they render to under the options in effect"""
+    reqs, index = [], {}
+    for s in scenarios:
+        for ev in s.events:
+            if ev["op"] != "use":
+                continue
+            o = ev["opts"]
+            ev["_plain"] = [rng.choice(PLAIN_SENTINELS), rng.choice(PLAIN_SENTINELS)] + [plain_source(rng, o) for _ in range(n_random)]
+            for src in ev["_plain"]:
+                k = (okey(o), src)
+                if k not in index:
+                    index[k] = len(reqs)
+                    reqs.append([Atom("lex-plain"), lc.enc_cfg(o), o["newline_sequence"], src])
+    reps = core.driver_batch(reqs)
+    declined = 0
+    for s in scenarios:
+        for ev in s.events:
+            if ev["op"] != "use":
+                continue
+            ev["plain"] = []
+            ev.setdefault("skeletons", [])
+            ev.setdefault("lines", [])
+            for src in ev.pop("_plain"):
+                r = reps[index[(okey(ev["opts"]), src)]]
+                if str(r[0]) != "ok":  # not plain under these options (e.g. a line-statement prefix in the text) / syntax error
+                    declined += 1
+                    continue
+                ev["plain"].append({"source": src, "documented": r[1]})
+    return {"model_requests": len(reqs), "model_declined": declined}
 
 
 # ---------------------------------------------------------------------------------------------------------------
@@ -478,6 +539,8 @@ def replay_history(jinja2, case):
             render(env, p["source"])
         for p in ev.get("lines", []):
             render(env, p["line_source"])
+        for p in ev.get("plain", []):
+            render(env, p["source"])
         if ev is last:
             out["render"] = render(env, case["source"])
             out["fresh_environment_render"] = fresh(ev["opts"], case["source"])
@@ -519,6 +582,18 @@ def variants(jinja2, c):
     out.append(("overlay-chain-of-used:one-whitespace-option-per-level", p))
     for k in ("trim_blocks", "lstrip_blocks"):
         out.append((f"overlay-of-used:{k}", _touch(jinja2.Environment(**dict(c, **{k: flip[k]}))).overlay(**{k: c[k]})))
+    k = "keep_trailing_newline"
+    out.append((f"overlay-of-used:{k}", _touch(jinja2.Environment(**dict(c, **{k: flip[k]}))).overlay(**{k: c[k]})))
+    if "newline_sequence" in c:
+        other_nl = "\r\n" if c["newline_sequence"] != "\r\n" else "\r"
+        out.append(("overlay-of-used:newline_sequence",
+                    _touch(jinja2.Environment(**dict(c, newline_sequence=other_nl))).overlay(newline_sequence=c["newline_sequence"])))
+        out.append(("overlay-of-used:newline_sequence+keep_trailing_newline",
+                    _touch(jinja2.Environment(**dict(c, newline_sequence=other_nl, **{k: flip[k]})))
+                    .overlay(newline_sequence=c["newline_sequence"], **{k: c[k]})))
+        out.append(("overlay-chain-of-used:newline_sequence-then-keep_trailing_newline",
+                    _touch(_touch(jinja2.Environment(**dict(c, newline_sequence=other_nl, **{k: flip[k]})))
+                           .overlay(newline_sequence=c["newline_sequence"])).overlay(**{k: c[k]})))
     # ... overriding only the delimiters
     out.append(("overlay-of-used:delimiters", _touch(jinja2.Environment(**dict(c, **other_delims))).overlay(**only(DELIM_KEYS))))
     # overlay of a fresh parent
